@@ -19,6 +19,7 @@ func init() {
 
 func ruleCastBoundary(c *Ctx) []Obligation {
 	var out []Obligation
+	actxCastModeLog = map[string]map[string]string{}
 	out = append(out, actxCastLetFlag(c)...)
 	out = append(out, actxCastCompilerLet(c)...)
 	out = append(out, actxCastInterpLet(c)...)
@@ -27,6 +28,7 @@ func ruleCastBoundary(c *Ctx) []Obligation {
 	out = append(out, actxCastVMCatchable(c)...)
 	out = append(out, actxCastSupersedes(c)...)
 	out = append(out, actxCastExprAlways(c)...)
+	out = append(out, actxCastModesAgree(c)...)
 	return out
 }
 
@@ -398,6 +400,8 @@ func actxCastCompilerLet(c *Ctx) []Obligation {
 			}
 			if !okT {
 				bad = append(bad, "the cast instruction emitted at "+c.Pos(actxInstrPos(ins))+" is not built from the annotated type (OptType)")
+			} else {
+				actxLogCastMode("let|compiler", c.Pos(actxInstrPos(ins)), actxCastInstrMode(mi, mfr))
 			}
 			return true
 		}
@@ -501,7 +505,11 @@ func actxCastInterpLet(c *Ctx) []Obligation {
 				return false
 			}
 			args := ins.(ssa.CallInstruction).Common().Args
-			return len(args) >= 2 && ef.fr.sym(args[1]) == root+".OptType"
+			if len(args) >= 2 && ef.fr.sym(args[1]) == root+".OptType" {
+				actxLogCastMode("let|interpreter", c.Pos(ins.Pos()), actxDeepCastMode(ef.fr, ins.(ssa.CallInstruction)))
+				return true
+			}
+			return false
 		}
 		run := func(assume map[string]actxAbs) *actxEvalFrame {
 			ev := &actxKindEval{c: c, assume: assume}
@@ -1320,6 +1328,7 @@ func actxCastExprAlways(c *Ctx) []Obligation {
 					if mi, mfr := actxCastEmitted(f, ins, castT, inserters); mi != nil {
 						for _, a := range actxCastTypeArgs(mi, mfr) {
 							if a == want {
+								actxLogCastMode("as|"+relPkg(fn.Pkg.Pkg.Path())[len("homescript/"):], c.Pos(actxInstrPos(ins)), actxCastInstrMode(mi, mfr))
 								return true
 							}
 						}
@@ -1328,6 +1337,7 @@ func actxCastExprAlways(c *Ctx) []Obligation {
 					case ssa.CallInstruction:
 						cc := x.Common()
 						if g := cc.StaticCallee(); g != nil && deep[g] && len(cc.Args) >= 2 && f.fr.sym(cc.Args[1]) == want {
+							actxLogCastMode("as|"+relPkg(fn.Pkg.Pkg.Path())[len("homescript/"):], c.Pos(ins.Pos()), actxDeepCastMode(f.fr, x))
 							return true
 						}
 					}
@@ -1441,6 +1451,130 @@ func actxCastExprAlways(c *Ctx) []Obligation {
 	}
 	if n == 0 {
 		out = append(out, Obligation{Key: "cast expression", Status: Undecided, Detail: "no engine function handles an AnalyzedCastExpression"})
+	}
+	return out
+}
+
+// (i) ------------------------------------------------------------------------
+
+// actxCastModeLog: construct ("let" / "as") | engine → cast site → the constant
+// conversion mode with which the cast is performed there ("true": scalar
+// conversions allowed, "false": validation only, "?": not a constant).
+var actxCastModeLog map[string]map[string]string
+
+func actxLogCastMode(key, site, mode string) {
+	if actxCastModeLog == nil {
+		actxCastModeLog = map[string]map[string]string{}
+	}
+	if actxCastModeLog[key] == nil {
+		actxCastModeLog[key] = map[string]string{}
+	}
+	actxCastModeLog[key][site] = mode
+}
+
+func actxConstMode(v ssa.Value, fr *actxFrame) string {
+	o, _ := fr.origin(v)
+	if k, ok := o.(*ssa.Const); ok && k.Value != nil && k.Value.Kind() == constant.Bool {
+		if constant.BoolVal(k.Value) {
+			return "true"
+		}
+		return "false"
+	}
+	return "?"
+}
+
+// actxCastInstrMode: the AllowCast constant of the CastInstruction behind the
+// conversion mi (made in frame fr): the value stored into the exported field
+// AllowCast — in the literal itself, or in the constructor that returns the
+// instruction, traced through the parameters of the helpers on the way.
+func actxCastInstrMode(mi *ssa.MakeInterface, fr *actxFrame) string {
+	modeIn := func(fn *ssa.Function, f *actxFrame, only *ssa.Alloc) (string, bool) {
+		for _, b := range fn.Blocks {
+			for _, ins := range b.Instrs {
+				st, ok := ins.(*ssa.Store)
+				if !ok {
+					continue
+				}
+				fa, ok := st.Addr.(*ssa.FieldAddr)
+				if !ok || actxFieldName(fa.X.Type(), fa.Field) != "AllowCast" {
+					continue
+				}
+				if only != nil && fa.X != ssa.Value(only) {
+					continue
+				}
+				return actxConstMode(st.Val, f), true
+			}
+		}
+		return "", false
+	}
+	switch x := mi.X.(type) {
+	case *ssa.Call:
+		if sub := fr.enter(&x.Call); sub != nil {
+			if m, ok := modeIn(sub.fn, sub, nil); ok {
+				return m
+			}
+			return "false" // the field keeps its zero value
+		}
+	case *ssa.UnOp:
+		if al, ok := x.X.(*ssa.Alloc); ok {
+			if m, ok := modeIn(fr.fn, fr, al); ok {
+				return m
+			}
+			return "false"
+		}
+	}
+	return "?"
+}
+
+// actxDeepCastMode: the constant passed for DeepCast's boolean parameter.
+func actxDeepCastMode(fr *actxFrame, call ssa.CallInstruction) string {
+	for _, a := range call.Common().Args {
+		if bt, ok := a.Type().Underlying().(*types.Basic); ok && bt.Kind() == types.Bool {
+			return actxConstMode(a, fr)
+		}
+	}
+	return "?"
+}
+
+// actxCastModesAgree: the two engines perform the cast of the same construct
+// in the same mode. DeepCast / Opcode_Cast either only validate (allowCast =
+// false: a float is not an int) or also convert between the scalar kinds
+// (allowCast = true). For each construct that crosses the dynamic→static
+// boundary inside a program — the runtime validation of `let x: T = <any>`
+// and the cast expression `expr as T` — the AllowCast constant of the
+// CastInstruction the compiler emits (found on the paths that parts (b) and
+// (h) walk, helpers entered with their arguments substituted) must be a
+// constant and equal the constant the interpreter hands to DeepCast at its
+// twin site; otherwise the same accepted program yields a converted value in
+// one engine and a cast error in the other.
+func actxCastModesAgree(c *Ctx) []Obligation {
+	var out []Obligation
+	for _, con := range []struct{ tag, what string }{{"let", "let validation"}, {"as", "cast expression"}} {
+		ob := Obligation{Key: "homescript|" + con.what + "|cast mode agrees between compiler and interpreter", Nontrivial: true}
+		comp, interp := actxCastModeLog[con.tag+"|compiler"], actxCastModeLog[con.tag+"|interpreter"]
+		describe := func(m map[string]string) (string, map[string]bool) {
+			var sites []string
+			modes := map[string]bool{}
+			for s, v := range m {
+				sites = append(sites, s+" allowCast="+v)
+				modes[v] = true
+			}
+			sort.Strings(sites)
+			return strings.Join(sites, ", "), modes
+		}
+		cs, cm := describe(comp)
+		is, im := describe(interp)
+		switch {
+		case len(comp) == 0 || len(interp) == 0:
+			ob.Status, ob.Detail = Undecided, "no cast site found for the "+con.what+" in one of the engines (compiler: "+cs+"; interpreter: "+is+")"
+		case cm["?"] || im["?"]:
+			ob.Status, ob.Detail = Undecided, "the conversion mode is not a constant at some site (compiler: "+cs+"; interpreter: "+is+")"
+		case len(cm) == 1 && len(im) == 1 && (cm["true"] == im["true"]):
+			ob.Status, ob.Detail = Discharged, "compiler: "+cs+"; interpreter: "+is
+		default:
+			ob.Status, ob.Detail = Violated, "the "+con.what+" is cast in different modes — compiler: "+cs+"; interpreter: "+is+": with allowCast=true a float or bool is silently converted (e.g. into an int annotation), with allowCast=false the same value raises the cast error, so the engines disagree on accepted programs"
+		}
+		out = append(out, ob)
 	}
 	return out
 }
